@@ -86,6 +86,7 @@ static Verdict check_valid_basis(const std::string &P, const Case &c, const RunO
 }
 
 static Verdict check_c01(const Case &c) {
+    if (!in_exact_domain(c.g)) { stats().note_case(c, false); stats().cls("skipped-outside-exact-domain"); return Verdict::pass(); }
     Stats &S = stats();
     int dim = cycle_dim(c.g);
     bool ties = has_weight_ties(c.g);
@@ -100,6 +101,7 @@ static Verdict check_c01(const Case &c) {
 }
 
 static Verdict check_c02(const Case &c) {
+    if (!in_exact_domain(c.g)) { stats().note_case(c, false); stats().cls("skipped-outside-exact-domain"); return Verdict::pass(); }
     Stats &S = stats();
     int dim = cycle_dim(c.g);
     RefMCB ref = ref_mcb(c.g);
@@ -153,6 +155,7 @@ static Case gen_c07e() {
     return c;
 }
 static Verdict check_c07e(const Case &c) {
+    if (!in_exact_domain(c.g)) { stats().note_case(c, false); stats().cls("skipped-outside-exact-domain"); return Verdict::pass(); }
     Stats &S = stats();
     int dim = cycle_dim(c.g);
     bool special = c.g.n <= 1 || dim == 0 || num_components(c.g) > 1;
@@ -281,6 +284,7 @@ static Case gen_c08() {
 }
 
 static Verdict check_c08(const Case &c) {
+    if (!in_exact_domain(c.g)) { stats().note_case(c, false); stats().cls("skipped-outside-exact-domain"); return Verdict::pass(); }
     Stats &S = stats();
     std::string icls = "exact-" + c.wtype;
     bool is_int = c.wtype == "int";
@@ -301,6 +305,11 @@ static Verdict check_c08(const Case &c) {
     Relation rel;
     GraphSpec t = apply_transform(c.g, kind, a, b, h, is_int, rel);
     if (!spec_is_simple(t) || !spec_is_simple(c.g)) { S.note_case(c, false); S.cls("skipped-not-simple"); return Verdict::pass(); }
+    {   // the transformed graph (and H) must stay inside the exact domain too
+        GraphSpec th = t;
+        for (int i = 0; i < h.m(); i++) th.w.push_back(h.w[i]);
+        if (!in_exact_domain(t) || !in_exact_domain(th)) { S.note_case(c, false); S.cls("skipped-outside-exact-domain"); return Verdict::pass(); }
+    }
     int dim = cycle_dim(c.g);
     S.note_case(c, dim >= 3 && kind != "isolated");
     S.cls("transform-" + kind);
